@@ -141,6 +141,13 @@ func ruleUnitDefs(r *Report) {
 				got = append(got, -1) // shift by a variable
 			}
 		})
+		if d.fn == "(*commit.Buffer).writeChunk" {
+			// the block may be computed through ChunkAt: read it off the comparison (analysis W)
+			got = nil
+			if k := wireBlockOfWriteChunk(fn); k >= 0 {
+				got = []int64{int64(1) << uint(k)}
+			}
+		}
 		ok := len(got) > 0
 		for _, g := range got {
 			if g != d.scale {
